@@ -7,6 +7,7 @@ from .. import paths
 from ..core import FUNC, call_attr, calls_in, const, dotted, is_const, kwarg, norm, slice_parts, text, walk_local
 
 EXPLANATION = [
+    'C14.scalar-mult: the built-in double-and-add loop runs until the scalar is exhausted (or for at least bit_length(group order) iterations) and its body is one conditional add on the low bit, one doubling, one one-bit shift.',
     'C14.curve: the P-256 parameters in the built-in back end equal the NIST values and the generator satisfies the curve equation.',
     'C14.aes-tables: the AES S-box equals FIPS-197 (recomputed in the checker from the field inverse and affine map), S_INV is its '
     'inverse, and every entry of T1..T8, U1..U4 and RCON equals its definition (about 3400 constants).',
@@ -342,7 +343,61 @@ def rpa_layout(ctx):
     R.check(ok and after, rule, 'bumble.smp.AddressResolver.resolve | all keys tried', 'failure is returned only after the loop over all resolving keys', 'the resolver gives up inside the loop: only the first key is ever tried', p.loc(res))
 
 
+
+def scalar_mult(ctx):
+    """Double-and-add processes every bit of the scalar."""
+    R, p = ctx.r, ctx.p
+    rule = 'C14.scalar-mult'
+    fn = p.find('bumble.crypto.builtin._JacobianPoint.__mul__')
+    if fn is None:
+        R.bad(rule, 'bumble.crypto.builtin._JacobianPoint.__mul__', 'anchor missing')
+        return
+    k = fn.args.args[1].arg
+    loops = [n for n in fn.body if isinstance(n, (ast.While, ast.For))]
+    if len(loops) != 1:
+        R.bad(rule, 'bumble.crypto.builtin._JacobianPoint.__mul__ | loop', f'{len(loops)} loops (expected the one double-and-add loop)', p.loc(fn))
+        return
+    lp = loops[0]
+    key = 'bumble.crypto.builtin._JacobianPoint.__mul__'
+    if isinstance(lp, ast.While):
+        t = norm(lp.test)
+        ok = t in (f'{k} > 0', f'{k}', f'{k} != 0', f'0 < {k}', f'{k} >= 1')
+        R.check(ok, rule, key + ' | runs until the scalar is exhausted', f'while {t}', f'the loop condition `{t}` can stop before all bits of the scalar were processed', p.loc(lp))
+    else:
+        # for _ in range(N): N must cover the bit length of the group order (256)
+        n_bits = None
+        it = lp.iter
+        if isinstance(it, ast.Call) and dotted(it.func) == 'range' and len(it.args) == 1:
+            e = norm(it.args[0])
+            order = None
+            sec = p.find(f'{B}._EllipticCurve.SECP256R1')
+            for x in walk_local(sec) if sec is not None else []:
+                if isinstance(x, ast.Assign) and dotted(x.targets[0]) == 'n' and is_const(x.value):
+                    order = const(x.value)
+            env = {'self': type('S', (), {'curve': type('C', (), {'n': order})()})(), k: (order or 0) - 1}
+            try:
+                n_bits = eval(compile(ast.Expression(ast.parse(e, mode='eval').body), '<c>', 'eval'), {'__builtins__': {}}, env)
+            except Exception:
+                n_bits = None
+            R.check(order is not None and n_bits is not None and n_bits >= order.bit_length(), rule, key + ' | runs until the scalar is exhausted', f'range({e}) = {n_bits} iterations >= {order.bit_length() if order else "?"} bits',
+                    f'range({e}) = {n_bits} iterations: fewer than the {order.bit_length() if order else 256} bits a scalar below the group order can have - the top bit(s) of large private keys are ignored', p.loc(lp))
+        else:
+            R.bad(rule, key + ' | runs until the scalar is exhausted', f'unrecognised loop `{norm(it)}`', p.loc(lp))
+    body = lp.body
+    # one conditional add on the low bit, one doubling, one shift - in this order
+    def idx(pred):
+        return [i for i, s_ in enumerate(body) if pred(s_)]
+    add_i = idx(lambda s_: isinstance(s_, ast.If) and norm(s_.test) in (f'{k} % 2 != 0', f'{k} & 1', f'{k} & 1 != 0', f'{k} % 2 == 1', f'{k} % 2') and any(norm(x) in ('result = result + addend', 'result += addend', 'result = addend + result') for x in s_.body))
+    dbl_i = idx(lambda s_: norm(s_) in ('addend = addend.double()', 'addend = addend + addend'))
+    shf_i = idx(lambda s_: norm(s_) in (f'{k} = {k} >> 1', f'{k} >>= 1', f'{k} //= 2', f'{k} = {k} // 2'))
+    ok = len(add_i) == 1 and len(dbl_i) == 1 and len(shf_i) == 1 and add_i[0] < dbl_i[0] and add_i[0] < shf_i[0] and len(body) == 3
+    R.check(ok, rule, key + ' | double-and-add step', 'add on the low bit, double the addend, shift the scalar by one bit - once each per iteration', 'the loop body is not one conditional add on the low bit, one doubling and a one-bit shift', p.loc(lp))
+    init = [norm(s_) for s_ in fn.body[:fn.body.index(lp)]]
+    R.check('addend = self' in init and any(x.startswith('result = ') and 'point_at_infinity' in x for x in init), rule, key + ' | start values', 'addend = self, result = point at infinity', 'start values of the multiplication changed', p.loc(fn))
+
+
 RULES = [
+    ('C14.scalar-mult', scalar_mult),
     ('C14.curve', curve),
     ('C14.aes-tables', aes_tables),
     ('C14.validate', validate),
@@ -362,4 +417,7 @@ VARIANTS = [
     ('prand marker 0b11', 'bumble/crypto/__init__.py', "    return prand_bytes[:2] + bytes([(prand_bytes[2] & 0b01111111) | 0b01000000])\n", "    return prand_bytes[:2] + bytes([(prand_bytes[2] & 0b11111111) | 0b01000000])\n", 'fire', 'C14.rpa-layout'),
     ('library e() forgets to reverse the result', 'bumble/crypto/cryptography.py', "    return encryptor.update(data[::-1])[::-1]\n", "    return encryptor.update(data[::-1])\n", 'fire', 'C14.api-parity'),
     ('benign: docstring', 'bumble/crypto/builtin.py', '        """Computes the shared secret using ECDH."""\n', '        """Compute the ECDH shared secret."""\n', 'silent', ''),
+    ('scalar loop one iteration short', 'bumble/crypto/builtin.py', "        while k > 0:\n            if k % 2 != 0:", "        for _ in range(self.curve.n.bit_length() - 1):\n            if k % 2 != 0:", 'fire', 'C14.scalar-mult'),
+    ('benign: fixed 256 iterations', 'bumble/crypto/builtin.py', "        while k > 0:\n            if k % 2 != 0:", "        for _ in range(self.curve.n.bit_length()):\n            if k % 2 != 0:", 'silent', ''),
+    ('scalar shifted by two bits', 'bumble/crypto/builtin.py', "            k = k >> 1\n        return result", "            k = k >> 2\n        return result", 'fire', 'C14.scalar-mult'),
 ]
